@@ -158,9 +158,16 @@ class Interp:
         return z3.Int("py_len<%s>" % (self.term_name(term),))
 
     def term_name(self, term):
+        import re as _re
+        import zlib
         if term[0] == "base":
-            return term[1]
-        return "%s[%s](%s)" % (term[0], term[1], self.term_name(term[2]))
+            raw = term[1]
+        else:
+            raw = "%s[%s](%s)" % (term[0], term[1], self.term_name(term[2]))
+        clean = _re.sub(r"[^A-Za-z0-9_.:#\[\]()=-]", "_", raw)
+        if clean != raw or len(clean) > 80:
+            clean = clean[:60] + "~%08x" % (zlib.crc32(raw.encode()) & 0xFFFFFFFF)
+        return clean
 
     def eq(self, a, b):
         """Python ==, returns bool or SBool."""
@@ -1840,6 +1847,9 @@ class Interp:
             return o.segs.pop(idx)[1]
         if m == "copy":
             return OSeq(o.segs)
+        if m == "insert" and args and args[0] == 0 and not is_sym(args[0]):
+            o.segs.insert(0, ("i", args[1]))
+            return None
         raise Unsupported("opaque sequence .%s" % m)
 
     # ------------------------------------------------------------ externals
